@@ -117,3 +117,11 @@ META["C20"] = dict(
     level_text="Exploration: up to 8 goroutines register and unsubscribe close/disconnect listeners while the connection is shut down by the client, the server side or the socket at a drawn moment; every registration's outcome (ok flag, unsubscription, call count, closed flag seen inside the listener) is checked after quiescence. A wire-level peer opens channels by single frames, open+close batches, payload-less opens and duplicate ids with handlers that return, block on their context or read to the end; each accepted open must get exactly one handler whose context is live while the channel is live and cancelled after it ends or the connection drops; a duplicate id must end the connection without a second handler.",
     level_note="The registration race window is hit statistically (about 0.4% of registrations on the unrepaired tree, i.e. within the first few cases); no schedule enumeration.",
 )
+
+META["C04"] = dict(
+    engine="net",
+    design_ref="DESIGN.md 3/C04",
+    technique="property-based testing of call histories against a sequential specification keyed by call id: rapid-generated concurrent call plans (all five call shapes) over a real rpc client/server, plus scripted malformed replies from a wire-level server",
+    level_text="Exploration: plans of up to 64 concurrent unary, oneway, client-streaming, server-streaming and bidirectional calls over 1..3 shared connections; each handler's result bytes (self-describing per call id), status code (every standard code and application codes) and message (unicode, to 300 bytes), panics and early responses are part of the plan, and every caller must observe exactly its own call's outcome, streamed messages in order before the end marker, and the handler log must show each id exactly once. A scripted raw server answers with garbage, corrupted, status-less, mistyped or empty replies, which must never be observed as OK.",
+    level_note="Interleavings are sampled. Result bytes are valid spec values (the response's any-field is copied raw by design).",
+)
